@@ -35,8 +35,10 @@ def r01a(model: Model, rr: RuleResult):
     want = {"view_box": "view_box()", "ascender": "info.ascender", "descender": "info.descender", "width": ".width", "user_transform": "user_transform"}
     if mp != mo:
         rr.bad(tfi, tfi.node, f"the two viewBox maps declare different parameter orders {mp} vs {mo} but are called through one call site", construct="map_viewbox_* parameter order")
+    from ..dataflow import resolved as _r01
+    _tc = cfg_of(tfi)
     for pname, a in zip(mp, calls[0].args):
-        if want.get(pname) and want[pname] in norm(a):
+        if want.get(pname) and (want[pname] in norm(a) or want[pname] in norm(_r01(_tc, _tc.node_for(calls[0]), a))):
             rr.ok(f"_transform passes {short(a, 40)} as {pname}")
         else:
             rr.bad(tfi, calls[0], f"_transform passes {short(a, 40)} where the map function expects {pname}", construct=f"map_fn arg {pname} = {short(a, 40)}")
@@ -197,7 +199,10 @@ def r01c(model: Model, rr: RuleResult):
     pops = [c for c in calls_in(bfi) if callee_tail(c) == "pop"]
     apps = [c for c in calls_in(bfi) if callee_tail(c) == "append"]
     childloop = [st for st in walk_body(bfi) if isinstance(st, ast.For) and "children()" in norm(st.iter)]
-    if len(pops) == 1 and pops[0].args and norm(pops[0].args[0]) == "0" and apps and childloop and "reversed" not in norm(childloop[0].iter):
+    lefts = [c for c in calls_in(bfi) if callee_tail(c) == "popleft" and not c.args]
+    is_deque = any(isinstance(c, ast.Call) and callee_tail(c) == "deque" for c in calls_in(bfi))
+    fifo = (len(pops) == 1 and pops[0].args and norm(pops[0].args[0]) == "0" and not lefts) or (len(lefts) == 1 and not pops and is_deque)
+    if fifo and apps and not any(callee_tail(c) == "appendleft" for c in calls_in(bfi)) and childloop and "reversed" not in norm(childloop[0].iter):
         rr.ok("Paint.breadth_first is FIFO (pop(0) + append) over children() in order")
     else:
         rr.bad_shape(bfi, bfi.node, "Paint.breadth_first no longer visits siblings in order (FIFO)", construct="breadth_first: frontier discipline")
